@@ -6,7 +6,7 @@ LEVEL = 'model_checking'
 PID = 'C03'
 FAMILY = 'resend'
 PROPS = ['P_C03']
-BASE = [{'role': 'acc', 'bs': 42}, {'role': 'acc', 'bs': 42, 'persist': False}, {'role': 'acc', 'bs': 44, 'dd': True}, {'role': 'acc', 'bs': 42, 'refreshOnLogon': True}]
+BASE = [{'role': 'acc', 'bs': 42}, {'role': 'acc', 'bs': 42, 'persist': False}, {'role': 'acc', 'bs': 44, 'dd': True}, {'role': 'acc', 'bs': 42, 'refreshOnLogon': True}, {'role': 'init', 'bs': 42, 'resetSeqTime': True, 'maxEp': 2}]
 ALT = [{'role': 'init', 'bs': 44}, {'role': 'acc', 'bs': 40}, {'role': 'init', 'bs': 41, 'persist': False}, {'role': 'acc', 'bs': 50}, {'role': 'init', 'bs': 42}]
 
 
@@ -19,7 +19,7 @@ def configs(ctx):
 def run(ctx):
     sessfam.standard_run(ctx, PID, FAMILY, PROPS, configs(ctx), quick_budget=15000, thorough_budget=250000,
                          quick_bounds={'maxIn': 4, 'maxOut': 4, 'maxEp': 1}, thorough_bounds={'maxIn': 4, 'maxOut': 6, 'maxEp': 1},
-                         stores=['memory', ('file', lambda s_: s_['cfg'].get('refreshOnLogon'))],
+                         stores=['memory', ('file', lambda s_: s_['cfg'].get('refreshOnLogon') or s_['cfg'].get('resetSeqTime'))],
                          statement='replay run all PossDup, coverage exactly [b, min(e,last)], replays intact under their own number, gap fills for the rest')
 
 
